@@ -3,6 +3,7 @@ import NixModel.Lemmas.C18Resume
 import NixModel.Lemmas.C18Content
 import NixModel.Lemmas.C18Repeat
 import NixModel.Lemmas.C18History
+import NixModel.Lemmas.C18Shape
 
 /-!
 # C18 — format upgrade preserves content, is idempotent and resumable
@@ -142,6 +143,37 @@ theorem C18_writable (lib : List Nat) (r : Nat) (f : File) (hlib : lib.length = 
       | none => rfl
   unfold openRW
   simp [hver, hlib, hv]
+
+/-! ## the tie to the source: the shape extracted from `nixio/cmd/upgrade.py` is the model
+
+`NixModel/Generated/UpgradeShape.lean` is rewritten from the source on every run (`harness/extract/upgradeshape.py`).
+The theorems below interpret it (`NixModel/Pure/UpgradeShape.lean`) and prove it equal to the hand-written model all
+other theorems are about; an edit of the source that reorders the tasks, reverses the loop, changes a test, a suffix
+or a rule for the per-value extras breaks one of them. -/
+
+/-- `collect_tasks` as written (version test, order and conditionality of the task constructors), run in the
+direction of the loop in `process_tasks`, is the model's flattened step list. -/
+theorem C18_shape_collect (lib : List Nat) (f : File) :
+    Shape.runOrder Gen.processOrder (Shape.collectG Gen.upToDateOp Gen.taskOrder Gen.idOuterTest lib f)
+      = collect lib f := by
+  rw [shape_process, shape_collect]
+
+/-- The tests of the source — which objects are scheduled, and the re-check each step makes on the object it
+is about to convert — evaluate to the model's: compound datasets, `isAliasDim`, the skip condition of
+`convertDimObj`; `add_id` re-checks the id, `update_ver` writes the library version and nothing else. -/
+theorem C18_shape_tests :
+    (∀ o : PObj, Gen.propFind.eval (Shape.propEnv o) = some (match o with | .old _ => true | .new _ => false)) ∧
+    (∀ o : PObj, Gen.propGoAhead.eval (Shape.propEnv o) = some (match o with | .old _ => true | .new _ => false)) ∧
+    (∀ d : Dim, Gen.dimFind.eval (Shape.dimEnv d) = some (isAliasDim d)) ∧
+    (∀ d : Dim, Gen.dimSkip.eval (Shape.dimEnv d) = some (d.ticks.isSome || (d.link.isSome && !d.alias))) ∧
+    Gen.idRecheck = true ∧ Gen.bumpWritesLibVersion = true :=
+  ⟨shape_prop_find, shape_prop_recheck, shape_dim_find, shape_dim_recheck, rfl, rfl⟩
+
+/-- The rules of `update_props` for the per-value extras as written (field, test `len(set(x)) > 1` / `any(x)`,
+`<name><suffix>` property or attribute, `if`/`elif` chaining, order) create exactly the model's objects. -/
+theorem C18_shape_conversion (run : Nat) (p : Path) (o : OldProp) :
+    Shape.convertedG Gen.extraRules run p o = some (converted run p o) :=
+  shape_conversion run p o
 
 /-! ## content -/
 
